@@ -319,19 +319,19 @@ def exact_size(F, R, I):
             continue      # a wrapper that delegates to another MultiscalarMul impl (Ristretto -> Edwards), or the backend routine itself
         n += 1
 
-        def pred(fv_, t):
-            # Option<usize>::eq(&hint.1, &Some(hint.0)) with both sides from one size_hint() call on the scalar iterator (parameter 1)
+        def pred(fv_, t, param=1):
+            # Option<usize>::eq(&hint.1, &Some(hint.0)) with both sides from one size_hint() call on the scalar iterator (parameter `param`)
             a, b = expr_of(fv_, t["args"][0], 12), expr_of(fv_, t["args"][1], 12)
             both = ("tuple", a, b)
             hints = ex.find(both, lambda x: x[0] == "call" and re.search(r"Iterator>::size_hint$", x[1]))
             if not hints:
                 return False
             def from_param1(h):
-                if ex.mentions_arg(h, 1):
+                if ex.mentions_arg(h, param):
                     return True
                 for loc in ex.find(h, lambda x: x[0] == "local"):
                     for d in fv_.defs.get(loc[1], []):
-                        if d.kind == "call" and not d.via_mutref and any(ex.mentions_arg(expr_of(fv_, a_, 6), 1) for a_ in d.term["args"]):
+                        if d.kind == "call" and not d.via_mutref and any(ex.mentions_arg(expr_of(fv_, a_, 6), param) for a_ in d.term["args"]):
                             return True
                 return False
             from_scalars = [h for h in hints if from_param1(h)]
@@ -342,6 +342,31 @@ def exact_size(F, R, I):
                   alt=[(r"core::option::Option<usize> as core::cmp::PartialEq>::ne$", 0)])
         es = g.edges(fv)
         ok = bool(es) and dominated(fv, [bi for bi, _ in fwd], es)
+        if not ok:
+            # the exactness test was moved into a private helper that is called on the scalar iterator before Straus: every return of the helper must be
+            # dominated by the same test on the corresponding parameter, and the call must dominate the Straus call
+            for bi, t in fv.calls:
+                ck = (t.get("resolved") or {}).get("key") or t.get("callee_key")
+                h = F.fns.get(ck)
+                if h is None or "mir" not in h or h.get("exported") or h["crate"] != "curve25519_dalek" or h["kind"] == "Closure":
+                    continue
+                for j, a_ in enumerate(t["args"]):
+                    e_ = expr_of(fv, a_, 8)
+                    derived = ex.mentions_arg(e_, 1) or any(
+                        d.kind == "call" and not d.via_mutref and any(ex.mentions_arg(expr_of(fv, a2, 6), 1) for a2 in d.term["args"])
+                        for loc in ex.find(e_, lambda x: x[0] == "local") for d in fv.defs.get(loc[1], []))
+                    if not derived:
+                        continue
+                    hv = view(F, h)
+                    gh = Guard("helper: size_hint().1 == Some(size_hint().0)", r"core::option::Option<usize> as core::cmp::PartialEq>::eq$", want=1,
+                               arg_pred=lambda fv_, t_, p_=j + 1: pred(fv_, t_, p_), alt=[(r"core::option::Option<usize> as core::cmp::PartialEq>::ne$", 0)])
+                    eh = gh.edges(hv)
+                    rets = [b_ for b_ in hv.live_blocks() if (hv.blocks[b_].get("t") or {}).get("k") == "return"]
+                    if eh and rets and dominated(hv, rets, eh) and t.get("target") is not None and dominated(fv, [b2 for b2, _ in fwd], [(bi, t["target"], "call")]):
+                        ok = True
+                        break
+                if ok:
+                    break
         inst = I(short_fn(f))
         if ok:
             R.ok("C14.exact_size", inst, "the Straus call is dominated by `size_hint().1 == Some(size_hint().0)` of the scalar iterator: the digit buffer is collected in one allocation")
